@@ -22,7 +22,9 @@ from typing import Any, Callable, Iterable
 VERIF = Path(__file__).resolve().parent.parent  # location independent: works from any worktree of /verif
 COQ = VERIF / "coq"
 BUILD = VERIF / "build"
-REPO = Path("/repo")
+# The registered commands always run against /repo.  VERIF_REPO_ROOT lets the developer point the whole
+# harness at another checkout (a scratch worktree with a seeded change) without touching /repo.
+REPO = Path(os.environ.get("VERIF_REPO_ROOT", "/repo"))
 PY = "/venv/bin/python"
 ALLOWED_AXIOMS: set[str] = set()  # the development is meant to be closed; nothing allow-listed
 
@@ -178,8 +180,23 @@ class Check:
                                 "detail": tail(out)})
             self.discharged = closed
             return False
+        bad = forbidden_tokens()
+        if bad:
+            self.broken.append({"kind": "hygiene", "name": "; ".join(bad[:5]), "detail": "\n".join(bad)})
+            self.say(f"[{self.pid}] forbidden declarations in the development: {bad[:5]}")
+            self.discharged = 0
+            return False
         self.discharged = self.obligations
         self.theorems = names
+        if self.thorough and os.environ.get("VERIF_SKIP_COQCHK") != "1":
+            # independent re-check of the compiled property file and everything it depends on
+            rc, out = sh(f"ulimit -s unlimited; timeout 1500 coqchk -silent -o -Q {COQ} PG PG.Properties.{self.pid}",
+                         timeout=1600, cwd=COQ)
+            ax = re.search(r"\* Axioms:\s*(.*?)\n\s*\n", out + "\n\n", re.S)
+            self.cov["coqchk"] = {"exit": rc, "axioms": (ax.group(1).strip() if ax else "?")[:2000]}
+            if rc != 0:
+                self.broken.append({"kind": "coqchk", "name": f"Properties/{self.pid}.vo", "detail": tail(out)})
+                return False
         return True
 
     # -------------------------------------------------------------- step 3: model evaluation
@@ -312,6 +329,48 @@ def load_known(pid: str) -> dict[str, dict]:
         return {}
     kf = json.loads(f.read_text())
     return {x["id"]: x for x in kf.get("findings", []) if x.get("status") == "open"}
+
+
+FORBIDDEN = re.compile(r"\b(Admitted|admit|Axiom|Axioms|Parameter|Parameters|Conjecture|Abort All|"
+                       r"Unset Guard Checking|Unset Positivity Checking|Unset Universe Checking|bypass_check|"
+                       r"Admit Obligations|Program Fixpoint|Program Definition|funelim|give_up)\b")
+
+
+def strip_comments(src: str) -> str:
+    out, depth, i = [], 0, 0
+    while i < len(src):
+        if src.startswith("(*", i):
+            depth += 1
+            i += 2
+        elif src.startswith("*)", i) and depth:
+            depth -= 1
+            i += 2
+        else:
+            if depth == 0:
+                out.append(src[i])
+            i += 1
+    return "".join(out)
+
+
+def forbidden_tokens() -> list[str]:
+    """No axioms, no admits, no switched-off kernel checks anywhere in the development
+    (Variable/Hypothesis are only tolerated inside a Section; that is checked per file)."""
+    bad = []
+    for d in ("Lib", "Gen", "Corr", "Model", "Proofs", "Properties"):
+        for f in sorted((COQ / d).glob("*.v")):
+            code = strip_comments(f.read_text())
+            for m in FORBIDDEN.finditer(code):
+                bad.append(f"{f.relative_to(COQ)}: {m.group(1)}")
+            depth = 0
+            for line in code.splitlines():
+                t = line.strip()
+                if re.match(r"Section\s+\w+", t):
+                    depth += 1
+                elif re.match(r"End\s+\w+\s*\.", t) and depth:
+                    depth -= 1
+                elif depth == 0 and re.match(r"(Variables?|Hypothes[ie]s|Context)\b", t):
+                    bad.append(f"{f.relative_to(COQ)}: {t.split()[0]} outside a Section")
+    return bad
 
 
 def tail(s: str, n: int = 25) -> str:
